@@ -219,7 +219,9 @@ def run(prog, R):
         if po:
             b = prog.body(po[0])
             ps = [p for p in SymExec(prog, b).paths() if "__diverged__" not in p.env]
-            ok = bool(ps) and all(show(deep_strip(p.env.get(0))).startswith("Option::Some") for p in ps)
+            # (a version that returns the SourceFile itself, wrapped in Some by its only caller, yields one as well)
+            direct = "Option<" not in str(b.local_ty(0))
+            ok = bool(ps) and (direct or all(show(deep_strip(p.env.get(0))).startswith("Option::Some") for p in ps))
             R.ob("C18.2-lock-step", "parse_one_included returns Some on every path", ok, b.at, f"{len(ps)} paths")
             # the text that is parsed for an included file is the text read from it, on every path where the read
             # succeeded (no path substitutes another or an empty text without an include error)
